@@ -71,7 +71,7 @@ func writeEvidence(path, prop, tier string, seed uint64, t *summary, distinct, i
 		"new_violations":              newViol,
 		"exhaustive":                  false,
 		"components_real":             []string{"lexer", "parser", "analyzer", "compiler", "runtime (VM)", "runtime/value", "interpreter", "interpreter/value", "TestingVmScopeAdditions / TestingInterpreterScopeAdditions builtins (print, println, time.sleep)"},
-		"components_stub":             []string{"host Executor (VM and interpreter)", "analyzer HostProvider (module text from memory)", "cancel context wrapper (counts polls, fires cancel)", "clock (testing/synctest fake clock)", "sync.RWMutex/Mutex of runtime and homescript packages (modelled by the scheduler)", "goroutine creation (go -> simrt.Go)", "map iteration order (range -> simrt.Iter)"},
+		"components_stub":             []string{"host Executor (VM and interpreter)", "analyzer HostProvider (module text from memory)", "cancel context wrapper (counts polls, fires cancel)", "clock (testing/synctest fake clock)", "sync.RWMutex/Mutex of every product package (modelled by the scheduler)", "goroutine creation (go -> simrt.Go)", "map iteration order (range -> simrt.Iter)", "pick among ready select cases (T6: simrt.SelectFirst)", "context.AfterFunc / time.AfterFunc callbacks (T7: simulator tasks)"},
 		"toolchain":                   "go1.26.8 (testing/synctest); product go.mod keeps go 1.21 language semantics",
 		"build_seconds":               buildS,
 	}
